@@ -68,7 +68,9 @@ func (f *format) encRun(cfg, failAt int, evs []event) string {
 }
 
 func (f *format) encCase(r *rng) string {
-	evs := r.genStream(f.encOpts)
+	eo := f.encOpts
+	eo.longStr = f.name != "json" // the JSON encoder model is quadratic in the string length
+	evs := r.genStream(eo)
 	if r.chance(1, 4) { // a second document on the same encoder
 		if f.containerDocs {
 			if k := evs[0].kind; k == evArrStart || k == evObjStart {
